@@ -66,7 +66,14 @@ fn alphabet(mode: Mode) -> Vec<Ev> {
         for id in [IdSel::Match, IdSel::Stale, IdSel::Zero, IdSel::Random] {
             for (ver, marker) in [(4u8, false), (4, true), (5, false), (3, false)] {
                 for m in [4u8, 3, 1] {
-                    for (s, kiss) in [(1u8, Kiss::Unknown), (16, Kiss::Unknown), (17, Kiss::Unknown), (0, Kiss::Deny), (0, Kiss::Rate), (0, Kiss::Unknown)] {
+                    for (s, kiss) in [
+                        (1u8, Kiss::Unknown),
+                        (16, Kiss::Unknown),
+                        (17, Kiss::Unknown),
+                        (0, Kiss::Deny),
+                        (0, Kiss::Rate),
+                        (0, Kiss::Unknown),
+                    ] {
                         v.push(Ev::Ans(Ans::plain(id, ver, marker, m, s, kiss)));
                     }
                 }
@@ -76,14 +83,36 @@ fn alphabet(mode: Mode) -> Vec<Ev> {
         for id in [IdSel::Match, IdSel::Stale, IdSel::Random] {
             for uid in [UidSel::Match, UidSel::Wrong, UidSel::Absent] {
                 for ver in [4u8, 5] {
-                    for (s, kiss) in [(1u8, Kiss::Unknown), (17, Kiss::Unknown), (0, Kiss::Unknown)] {
-                        v.push(Ev::Ans(Ans { id, version: ver, marker: false, mode: 4, stratum: s, kiss, auth: true, uid }));
+                    for (s, kiss) in [
+                        (1u8, Kiss::Unknown),
+                        (17, Kiss::Unknown),
+                        (0, Kiss::Unknown),
+                    ] {
+                        v.push(Ev::Ans(Ans {
+                            id,
+                            version: ver,
+                            marker: false,
+                            mode: 4,
+                            stratum: s,
+                            kiss,
+                            auth: true,
+                            uid,
+                        }));
                     }
                 }
             }
         }
         for ver in [4u8, 5] {
-            v.push(Ev::Ans(Ans { id: IdSel::Match, version: ver, marker: false, mode: 4, stratum: 1, kiss: Kiss::Unknown, auth: false, uid: UidSel::Match }));
+            v.push(Ev::Ans(Ans {
+                id: IdSel::Match,
+                version: ver,
+                marker: false,
+                mode: 4,
+                stratum: 1,
+                kiss: Kiss::Unknown,
+                auth: false,
+                uid: UidSel::Match,
+            }));
         }
     }
     v
@@ -113,11 +142,20 @@ struct World {
 
 impl World {
     fn new(mode: Mode) -> World {
-        World { mode, rig: Rig::new(mode), spec: SpecSet::initial(mode), per_request: Vec::new() }
+        World {
+            mode,
+            rig: Rig::new(mode),
+            spec: SpecSet::initial(mode),
+            per_request: Vec::new(),
+        }
     }
     /// ns since the most recent request was emitted
     fn elapsed(&self) -> Option<u128> {
-        self.rig.requests.last().map(|r| tokio::time::Instant::now().duration_since(r.sent_at).as_nanos())
+        self.rig.requests.last().map(|r| {
+            tokio::time::Instant::now()
+                .duration_since(r.sent_at)
+                .as_nanos()
+        })
     }
 }
 
@@ -161,7 +199,8 @@ async fn step(w: &mut World, ev: &Ev, st: &mut Local) -> Step {
                 return Step::NotApplicable;
             }
             let in_window = elapsed < WINDOW_NS;
-            let id_ok = a.id == IdSel::Match && (!w.mode.nts() || (a.uid == UidSel::Match && a.auth));
+            let id_ok =
+                a.id == IdSel::Match && (!w.mode.nts() || (a.uid == UidSel::Match && a.auth));
             let before: View = w.rig.view();
             let spec_before = w.spec.clone();
             let Some((_bytes, obs)) = w.rig.deliver(a) else {
@@ -169,7 +208,12 @@ async fn step(w: &mut World, ev: &Ev, st: &mut Local) -> Step {
             };
             let after: View = w.rig.view();
             let accepted = obs.accepted();
-            let f = Facts { fresh: id_ok && in_window, version: a.version, marker: a.marker, usable: a.usable_fields() };
+            let f = Facts {
+                fresh: id_ok && in_window,
+                version: a.version,
+                marker: a.marker,
+                usable: a.usable_fields(),
+            };
             let open = spec_before.any_open();
             let version_ok = spec_before.expects(a.version);
             let version_maybe = version_ok || (a.version == 3 && spec_before.expects(4));
@@ -221,42 +265,75 @@ async fn step(w: &mut World, ev: &Ev, st: &mut Local) -> Step {
                 } else {
                     "C08:accepted-other"
                 };
-                return Step::Violation(class, format!("{} after {} ms: {e}", a.code(), elapsed / 1_000_000));
+                return Step::Violation(
+                    class,
+                    format!("{} after {} ms: {e}", a.code(), elapsed / 1_000_000),
+                );
             }
             if accepted {
                 if obs.meas_calls != 2 || !obs.linked {
                     return Step::Violation(
                         "C08:measurement-shape",
-                        format!("{}: {} handle_measurement calls, pair carries this datagram's timestamps: {}", a.code(), obs.meas_calls, obs.linked),
+                        format!(
+                            "{}: {} handle_measurement calls, pair carries this datagram's timestamps: {}",
+                            a.code(),
+                            obs.meas_calls,
+                            obs.linked
+                        ),
                     );
                 }
                 let n = w.per_request.len();
                 w.per_request[n - 1] += 1;
                 if w.per_request[n - 1] > 1 {
-                    return Step::Violation("C08:two-measurements-one-request", format!("request #{n} yielded {} measurements", w.per_request[n - 1]));
+                    return Step::Violation(
+                        "C08:two-measurements-one-request",
+                        format!("request #{n} yielded {} measurements", w.per_request[n - 1]),
+                    );
                 }
                 if after.reach & 1 != 1 {
-                    return Step::Violation("C08:reach-bit", "measurement delivered but the reach bit is not set".to_string());
+                    return Step::Violation(
+                        "C08:reach-bit",
+                        "measurement delivered but the reach bit is not set".to_string(),
+                    );
                 }
                 if !obs.acts.is_empty() {
-                    return Step::Violation("C08:answer-actions", format!("accepted answer returned actions {:?}", obs.acts));
+                    return Step::Violation(
+                        "C08:answer-actions",
+                        format!("accepted answer returned actions {:?}", obs.acts),
+                    );
                 }
             } else {
                 if after.reach != before.reach {
-                    return Step::Violation("C08:reach-bit", format!("no measurement but reach changed {:#b} -> {:#b}", before.reach, after.reach));
+                    return Step::Violation(
+                        "C08:reach-bit",
+                        format!(
+                            "no measurement but reach changed {:#b} -> {:#b}",
+                            before.reach, after.reach
+                        ),
+                    );
                 }
                 let not_fresh = !id_ok || !in_window || !open || !version_maybe;
                 if not_fresh && (after != before || !obs.acts.is_empty()) {
                     return Step::Violation(
                         "C08:nonfresh-changes-state",
-                        format!("{} is not a fresh answer (id_ok={id_ok} in_window={in_window} request_open={open} version_expected={version_maybe}) but changed the source: {:?} -> {:?}, actions {:?}", a.code(), before, after, obs.acts),
+                        format!(
+                            "{} is not a fresh answer (id_ok={id_ok} in_window={in_window} request_open={open} version_expected={version_maybe}) but changed the source: {:?} -> {:?}, actions {:?}",
+                            a.code(),
+                            before,
+                            after,
+                            obs.acts
+                        ),
                     );
                 }
                 if not_fresh {
                     st.inc("nonfresh_left_state_untouched");
                 }
             }
-            Step::Ok(format!("{}{:?}", if accepted { "accepted " } else { "not-used " }, obs.acts))
+            Step::Ok(format!(
+                "{}{:?}",
+                if accepted { "accepted " } else { "not-used " },
+                obs.acts
+            ))
         }
     }
 }
@@ -288,7 +365,9 @@ fn key_of(w: &World) -> Key {
     Key {
         view,
         spec: w.spec.clone(),
-        elapsed: w.elapsed().map(|e| if e > WINDOW_NS { u128::MAX } else { e }),
+        elapsed: w
+            .elapsed()
+            .map(|e| if e > WINDOW_NS { u128::MAX } else { e }),
         nreq: w.rig.requests.len().min(2) as u8,
         used: w.per_request.last().copied().unwrap_or(0),
     }
@@ -356,7 +435,12 @@ fn explore(ctx: &Ctx, mode: Mode, max_depth: u64) -> (rig::LevelStats, bool) {
         },
         |depth, width| {
             if ctx.over_budget() {
-                ctx.cap_hit(&format!("mode {}: budget used up before depth {} (frontier {}); complete below", mode.name(), depth, width));
+                ctx.cap_hit(&format!(
+                    "mode {}: budget used up before depth {} (frontier {}); complete below",
+                    mode.name(),
+                    depth,
+                    width
+                ));
                 capped.store(true, std::sync::atomic::Ordering::Relaxed);
                 return false;
             }
@@ -369,7 +453,14 @@ fn explore(ctx: &Ctx, mode: Mode, max_depth: u64) -> (rig::LevelStats, bool) {
     ctx.max("max_depth", stats.max_depth);
     ctx.note(
         &format!("mode_{}", mode.name()),
-        &format!("alphabet {} events, {} states, {} transitions, depth {}, fixpoint {}", alpha.len(), stats.states, stats.transitions, stats.max_depth, stats.fixpoint),
+        &format!(
+            "alphabet {} events, {} states, {} transitions, depth {}, fixpoint {}",
+            alpha.len(),
+            stats.states,
+            stats.transitions,
+            stats.max_depth,
+            stats.fixpoint
+        ),
     );
     (stats, capped.load(std::sync::atomic::Ordering::Relaxed))
 }
@@ -392,7 +483,10 @@ fn replay(ctx: &Ctx, trace: &str) -> String {
             };
             match step(&mut w, &ev, &mut st).await {
                 Step::NotApplicable => obs.push(format!("{code}=n/a")),
-                Step::Ok(o) => obs.push(format!("{code}={o}|meas={}", w.rig.total_measurement_calls())),
+                Step::Ok(o) => obs.push(format!(
+                    "{code}={o}|meas={}",
+                    w.rig.total_measurement_calls()
+                )),
                 Step::Violation(class, what) => {
                     ctx.violation(class, what.clone(), trace);
                     obs.push(format!("{code}=VIOLATION {class}: {what}"));
